@@ -96,6 +96,17 @@ def build(tier="quick", seed=0):
                     k += 1
                     it.call(it.getattr_(w, "write"), [r], {})
                     written.append(r)
+                elif op == "x":
+                    # a record the writer cannot store: the write is refused with an error that the caller catches; what was accepted before must stay
+                    if wname in ("SqliteWriter", "AvroWriter"):
+                        bad = it.call(D, [], {"n": 2**70, "s": "refused", "_generated": GEN})
+                    else:
+                        bad = it.call(it.call(RD, ["c17/dl", [("dictlist", "dl")]], {}), [], {"dl": [{"k": {1, 2}}], "_generated": GEN})
+                    try:
+                        it.call(it.getattr_(w, "write"), [bad], {})
+                        written.append(bad)
+                    except PyRaise:
+                        pass
                 elif op in ("f", "flush"):
                     it.call(it.getattr_(w, "flush"), [], {})
                 elif op == "close":
@@ -122,6 +133,14 @@ def build(tier="quick", seed=0):
                 return False, f"record order / content changed: {it.unbase(a.attrs['s'])!r} vs {it.unbase(b.attrs.get('s'))!r}"
             conj.append(it.zint(a.attrs["n"]) == it.zint(b.attrs["n"]))
         return (z3.And(*conj) if conj else True), "a value differs"
+
+    for wname in WRITERS:
+        for body in (("w", "x", "w"), ("x", "w"), ("w", "w", "x", "w", "f"), ("w", "x")):
+            for ending in ("close", "with-exit"):
+                name = f"C17.refused[{wname}, {' '.join(body)} then {ending}]"
+                pack.add(Obligation(name, lambda tier, name=name, wname=wname, body=body, ending=ending: prove_paths(name, run_history(wname, body, ending), judge_history, lambda m_, p: {}, allow_raise=("error",)),
+                                    replay=lambda w, wname=wname, body=body, ending=ending: {"call": "c17_history", "args": {"writer": wname, "body": "".join(body), "ending": ending}}, functions=FU,
+                                    mode="histories with a refused write (x) between accepted ones"))
 
     for wname in WRITERS:
         for nops in range(0, 4):
@@ -282,14 +301,16 @@ def build(tier="quick", seed=0):
                             mode="concrete history with a modelled clock"))
 
     # ------------------------------------------------------------------ the template names the file: consecutive records of one path share it, finer templates are honoured
-    def th_template(template, minutes):
+    def th_template(template, minutes, tz=UTC):
+        UTC_ = tz
+
         def th():
             fresh_fs()
             D = desc()
             w = it.call(st.g["PathTemplateWriter"], [template], {"name": "t"})
             expected = {}
             for j, (hh, mm) in enumerate(minutes):
-                g = _dt.datetime(2017, 12, 6, hh, mm, tzinfo=UTC)
+                g = _dt.datetime(2017, 12, 6, hh, mm, tzinfo=UTC_)
                 r = it.call(D, [], {"n": SInt(vs[j % 4]), "s": f"r{j}", "_generated": g})
                 it.call(it.getattr_(w, "write"), [r], {})
                 expected.setdefault(template.format(name="t", record=None, ts=g) if "{record" not in template else template, []).append(f"r{j}")
@@ -309,6 +330,11 @@ def build(tier="quick", seed=0):
         name = f"C17.template[{label}]"
         pack.add(Obligation(name, lambda tier, name=name, template=template, minutes=minutes: prove_paths(name, th_template(template, minutes), judge_template, lambda m_, p: {}, allow_raise=("error",)),
                             replay=lambda w, template=template, minutes=minutes: {"call": "c17_template", "args": {"template": template.replace("/abs/arch/", ""), "minutes": minutes}}, functions=FU, mode="concrete histories of one writer on an empty directory"))
+    # the timestamp that names the file is the record's own (_generated with its own UTC offset), not its UTC form
+    for label, template, minutes, off in (("records stamped +05:30, hour template", "/abs/arch/{name}-{ts:%Y%m%dT%H}.records", [(22, 10), (23, 40)], 330), ("records stamped -08:00, day directory template", "/abs/arch/{ts:%Y/%m/%d}/{name}-{ts:%H%M}.records", [(20, 10), (23, 59)], -480)):
+        name = f"C17.template[{label}]"
+        pack.add(Obligation(name, lambda tier, name=name, template=template, minutes=minutes, off=off: prove_paths(name, th_template(template, minutes, _dt.timezone(_dt.timedelta(minutes=off))), judge_template, lambda m_, p: {}, allow_raise=("error",)),
+                            replay=lambda w, template=template, minutes=minutes, off=off: {"call": "c17_template", "args": {"template": template.replace("/abs/arch/", ""), "minutes": minutes, "offset_minutes": off}}, functions=FU, mode="concrete histories of one writer on an empty directory"))
 
     # a template without a directory part (as the writer's own default template) names files in the working directory
     for label, template in (("file name only, no directory part", "{name}-{ts:%Y%m%dT%H}.records"), ("the default template", None)):
